@@ -320,7 +320,7 @@ func runLongFilters(t *testing.T, rc *core.RunCtx) {
 		rc.Probe("long_not_converged")
 		if rc.Prop == "C04" {
 			bs, _ := w.cs.BestBlock()
-			rc.Failf("no-convergence-after-faults-stopped", map[string]string{"cause": nonConvergenceCause(w, wt), "long": "true"},
+			failNoConvergence(rc, w, wt, map[string]string{"long": "true"},
 				"long chain: %v after faults stopped the client reports best block %d, honest tip is %d; block tip %d, filter tip %d",
 				bound, bs.Height, honestTip.Height, wt.prev.tip(), len(wt.prev.filt)-1)
 		}
